@@ -5,7 +5,7 @@
    by the oracle (tested_only). *)
 From Coq Require Import String ZArith Bool Arith List.
 From SV Require Import Names NamesFacts ListFacts Rep Fresh Complex Atomic RepInv Homology Filtration FiltProofs Shapes SnapProofs.
-From SV Require Closed ClosedReach Listing.
+From SV Require Closed ClosedReach Listing VInv VIso.
 Import ListNotations.
 
 Theorem C14_maxOrder_refuted : maxOrder (f_rep witness) <> maxOrder (snap_rep witness).
@@ -78,3 +78,11 @@ Theorem C14_snapshot_euler_characteristic :
   eulerCharacteristic c = f_eulerCharacteristic f.
 Proof. exact Listing.snap_euler. Qed.
 Print Assumptions C14_snapshot_euler_characteristic.
+
+(* the snapshot of a filtration whose complex meets the vertex-set reading meets it, with the points the
+   simplices have in the filtration: closure, star, lookups, Euler integral (C04, C19) apply to it *)
+Theorem C14_snapshot_meets_the_vertex_set_reading :
+  forall hp f uid hp' c, VInv.vinv (f_rep f) -> copy_new hp (f_view f) uid = (hp', c, Ok tt) ->
+  VInv.vinv c /\ forall s, containsSimplex c s = true -> VInv.sameset (basisOf c s) (basisOf (f_rep f) s).
+Proof. exact VIso.snap_vinv. Qed.
+Print Assumptions C14_snapshot_meets_the_vertex_set_reading.
